@@ -415,7 +415,67 @@ impl CheckImpl for C20 {
         }
         acc.log_unit(unit, uh);
     }
+    fn secondary(&mut self, tier: Tier, seed: u64) -> (Vec<Viol>, Value) {
+        // Engine B costs minutes: on by default in the thorough tier only (VERIF_MIRI=1 / 0 overrides).
+        let want = match std::env::var("VERIF_MIRI").ok().as_deref() {
+            Some("1") => true,
+            Some("0") => false,
+            _ => tier == Tier::Thorough,
+        };
+        if !want {
+            return (Vec::new(), json!({"engine": "miri", "skipped": "quick tier (set VERIF_MIRI=1 to include); runs in the thorough tier"}));
+        }
+        // (scenario, backend, n, number of Miri seeds)
+        let jobs: Vec<(&str, &str, u32, u32)> = match tier {
+            Tier::Quick => vec![("eval", "FFT64Ref", 8, 2), ("eval", "NTT120Ref", 8, 2)],
+            Tier::Thorough => vec![
+                ("eval", "FFT64Ref", 8, 16),
+                ("eval", "NTT120Ref", 8, 16),
+                ("shared", "FFT64Ref", 8, 8),
+                ("shared", "NTT120Ref", 8, 8),
+                ("prep", "FFT64Ref", 8, 2),
+                ("prep", "NTT120Ref", 8, 2),
+            ],
+        };
+        let t0 = std::time::Instant::now();
+        let first = (seed % 1000) as u32;
+        let mut viols = Vec::new();
+        let mut runs = Vec::new();
+        // build once (first job, one seed), then the rest in parallel
+        let handles: Vec<_> = {
+            let (sc, be, n, _) = jobs[0];
+            let warm = miri_run(sc, be, n, first, first + 1);
+            runs.push(json!({"scenario": sc, "backend": be, "n": n, "seeds": format!("{first}..{}", first + 1), "ok": warm.0, "warmup": true}));
+            if !warm.0 {
+                viols.push(miri_viol(sc, be, n, first, first + 1, &warm.1));
+            }
+            jobs.iter()
+                .map(|(sc, be, n, k)| {
+                    let (sc, be, n, k) = (sc.to_string(), be.to_string(), *n, *k);
+                    std::thread::spawn(move || {
+                        let r = miri_run(&sc, &be, n, first, first + k);
+                        (sc, be, n, k, r)
+                    })
+                })
+                .collect()
+        };
+        for h in handles {
+            let (sc, be, n, k, r) = h.join().unwrap();
+            runs.push(json!({"scenario": sc, "backend": be, "n": n, "seeds": format!("{first}..{}", first + k), "ok": r.0}));
+            if !r.0 {
+                viols.push(miri_viol(&sc, &be, n, first, first + k, &r.1));
+            }
+        }
+        let ev = json!({"engine": "miri (nightly), scheduler hooks not installed, -Zmiri-many-seeds, -Zmiri-preemption-rate=0.1: data-race and UB detector on the reference backends",
+                        "runs": runs, "wall_s": t0.elapsed().as_secs_f64()});
+        (viols, ev)
+    }
     fn replay(&mut self, replay: &Value) -> Option<(String, String, String)> {
+        if replay["engine"].as_str() == Some("B") {
+            let u = |k: &str| replay[k].as_u64().unwrap() as u32;
+            let r = miri_run(replay["scenario"].as_str().unwrap(), replay["backend"].as_str().unwrap(), u("n"), u("seed_from"), u("seed_to"));
+            return if r.0 { None } else { Some(("MIRI".into(), "miri_report".into(), r.1)) };
+        }
         crate::sched::install_hooks();
         let r = Run::from_json(replay);
         match execute(&r) {
@@ -440,5 +500,132 @@ impl CheckImpl for C20 {
                 "simulated_time": "logical: scheduling decision count",
             }
         })
+    }
+}
+
+/// Engine B: entry point meant to run under `cargo +nightly miri run -- miri <scenario> <backend> <n>`.
+/// The scheduler hooks are NOT installed: threads run under Miri's own seeded scheduler
+/// (-Zmiri-seed / -Zmiri-many-seeds) so that its data-race detector sees unsynchronised accesses.
+/// The oracle besides Miri's own reports is byte equality with the single-threaded call.
+pub fn miri_main(args: &[String]) -> ! {
+    let scenario = args.first().map(|s| s.as_str()).unwrap_or("eval");
+    let backend_name = args.get(1).map(|s| s.as_str()).unwrap_or("FFT64Ref");
+    let n: u32 = args.get(2).and_then(|s| s.parse().ok()).unwrap_or(8);
+    let b = backend(backend_name);
+    let w = Window {
+        mode: WindowMode::Generous,
+        fill_seed: 0x5eed,
+    };
+    let w0 = Window {
+        mode: WindowMode::Generous,
+        fill_seed: 0,
+    };
+    let (multi, single) = match scenario {
+        "eval" => {
+            let mut s = EvalSpec {
+                n,
+                rank: 1,
+                circuit_seed: 0xC1C,
+                outputs: 5,
+                out_extra: 1,
+                threads: 3,
+                out_poison: 77,
+            };
+            let m = b.eval(&s, &w, None).0;
+            s.threads = 1;
+            (m, b.eval(&s, &w0, None).0)
+        }
+        "prep" => {
+            let mut s = PrepSpec {
+                n,
+                word_bits: 8,
+                bit_start: 1,
+                bit_count: 3,
+                threads: 2,
+            };
+            let m = b.prep(&s, &w, None).0;
+            s.threads = 1;
+            (m, b.prep(&s, &w0, None).0)
+        }
+        _ => {
+            let s = SharedSpec {
+                n,
+                threads: 3,
+                ops_seed: 0xABCD,
+                ops_per_thread: 2,
+                with_prepare: false,
+            };
+            // engine B variant of SHARED: real concurrency, no scheduler: run through the scheduler-less path twice
+            // (sequential reference) and once with plain std threads.
+            let seq = b.shared(&s, None).0;
+            let par = b.shared_unsync(&s);
+            (par, seq)
+        }
+    };
+    match (multi, single) {
+        (Ok(a), Ok(r)) => {
+            if a.outs != r.outs {
+                println!("MIRI-ENGINE-B: EQ violated: multi-threaded outputs differ from the single-threaded reference");
+                std::process::exit(1);
+            }
+            println!("MIRI-ENGINE-B: ok scenario={scenario} backend={backend_name} n={n} outputs={}", a.outs.len());
+            std::process::exit(0);
+        }
+        (a, r) => {
+            println!("MIRI-ENGINE-B: panic: {:?} / {:?}", a.err(), r.err());
+            std::process::exit(1);
+        }
+    }
+}
+
+/// Runs `poulpy-sim miri <scenario> <backend> <n>` under Miri for seeds [from, to). Returns (ok, report excerpt).
+fn miri_run(scenario: &str, backend_name: &str, n: u32, from: u32, to: u32) -> (bool, String) {
+    let root = crate::driver::verif_root();
+    let out = std::process::Command::new("cargo")
+        .args(["+nightly", "miri", "run", "--quiet", "--", "miri", scenario, backend_name, &n.to_string()])
+        .current_dir(format!("{root}/sim"))
+        .env("CARGO_TARGET_DIR", format!("{root}/target/miri"))
+        .env("CARGO_NET_OFFLINE", "true")
+        .env(
+            "MIRIFLAGS",
+            format!("-Zmiri-disable-isolation -Zmiri-preemption-rate=0.1 -Zmiri-many-seeds={from}..{to}"),
+        )
+        .output();
+    match out {
+        Err(e) => crate::driver::harness_error(&format!("cannot run cargo miri: {e}")),
+        Ok(o) => {
+            let so = String::from_utf8_lossy(&o.stdout).to_string();
+            let se = String::from_utf8_lossy(&o.stderr).to_string();
+            let oks = so.matches("MIRI-ENGINE-B: ok").count() as u32;
+            if o.status.success() && oks == to - from {
+                (true, String::new())
+            } else {
+                if se.contains("could not compile") || se.contains("error: no such command") {
+                    crate::driver::harness_error(&format!("miri build failed:\n{}", tail(&se, 3000)));
+                }
+                let interesting: Vec<&str> = se
+                    .lines()
+                    .filter(|l| l.contains("error") || l.contains("Undefined Behavior") || l.contains("Data race") || l.contains("-->") || l.contains("MIRI-ENGINE-B"))
+                    .take(12)
+                    .collect();
+                (false, format!("{} | {}", so.lines().filter(|l| l.contains("MIRI-ENGINE-B") && !l.contains(": ok")).collect::<Vec<_>>().join(" "), interesting.join(" / ")))
+            }
+        }
+    }
+}
+
+fn tail(s: &str, n: usize) -> String {
+    s.chars().rev().take(n).collect::<String>().chars().rev().collect()
+}
+
+fn miri_viol(scenario: &str, backend_name: &str, n: u32, from: u32, to: u32, report: &str) -> Viol {
+    Viol {
+        unit: u64::MAX - 1,
+        oracle: "MIRI".into(),
+        class: "miri_report".into(),
+        subject: format!("{scenario}/{backend_name}"),
+        detail: format!("Miri (seeds {from}..{to}) reported: {report}"),
+        replay: json!({"engine": "B", "scenario": scenario, "backend": backend_name, "n": n, "seed_from": from, "seed_to": to,
+                       "miri_flags": "-Zmiri-disable-isolation -Zmiri-preemption-rate=0.1 -Zmiri-many-seeds"}),
     }
 }
